@@ -500,7 +500,10 @@ sched_unlock(void)
 {
   /* Resource conservation, checked under the lock that guards the counters. */
   VERIF_ASSERT(work_units <= num_worker);
-  VERIF_ASSERT(out_slots <= total_out_slots);
+  /* (The -cdf copy loop is exempt: there out_slots is only a completion
+     counter and may transiently wrap below zero, because a buffer is handed
+     back to the reader before its write is accounted for.) */
+  VERIF_ASSERT(process->init == NULL || out_slots <= total_out_slots);
 
   select_task();
 
